@@ -1,1 +1,46 @@
-fn main() {}
+//! C18 — compaction never loses or overwrites live data.
+//!
+//! Two families of sections (see the module docs for the exact oracles):
+//!   * `extract`            — `extract_compact_segment` on real files, random span sets and buffer budgets;
+//!   * `merge-plan`,
+//!     `merge-plan-small`   — `plan_archive_merge` judged by executing the plan on an interval model.
+//! `ArchiveManager::compact` is exercised as an operation of C04 histories, not here.
+
+mod extract;
+mod plan;
+
+use vh_engine::{Check, Section};
+
+fn main() {
+    let mut ck = Check::from_args("C18", "exploration");
+    let tier = ck.tier;
+    ck.extra(
+        "rule",
+        "extract: file (len, content_seed) <= 1 MiB, span set from sorted cut points (kept/dropped intervals, extra zero-length spans, \
+         optional overlap perturbation, input order sorted/reversed/shuffled), budget from {0,128Ki,1Mi,4Mi,1,128Ki+1,300001}; \
+         non-trivial = >= 2 positive-length spans and dead bytes in front of at least one of them (a gap). \
+         merge-plan: <= 12 segments (state, write_position <= segment_size), threshold in permille, segment_size 4..=1 GiB; \
+         non-trivial = the plan has >= 1 move. Distinct by case hash."
+            .into(),
+    );
+    ck.assume("spans handed to extract_compact_segment lie inside the file (they come from index entries of that segment)");
+    ck.assume("a segment's used bytes are [0, write_position); slice position == segment index; write_position <= segment_size");
+    ck.assume("a zero-length span at or inside another span, and the empty span set, are outside the strict clauses (either documented outcome accepted, consistently)");
+    ck.assume("temp files live on a healthy local filesystem; I/O errors of the harness itself are reported as infrastructure trouble");
+
+    ck.run(Section::pbt("extract", tier.pick(1_500, 150_000), move || extract::strategy(tier), extract::check).shards(16));
+    let infra: Vec<String> = std::mem::take(&mut *extract::INFRA.lock().unwrap());
+    for m in infra {
+        ck.infra(format!("extract: {m}"));
+    }
+
+    let known = ck.known().clone();
+    let k1 = known.clone();
+    ck.run(Section::pbt("merge-plan", tier.pick(5_000, 2_000_000), plan::strategy, move |c: &plan::PlanCase| plan::check(c, &k1)).shards(16));
+    let k2 = known;
+    ck.run(
+        Section::enumerate("merge-plan-small", plan::SMALL_SCOPE, plan::small_scope, move |c: &plan::PlanCase| plan::check(c, &k2)).shards(16),
+    );
+
+    ck.finish();
+}
